@@ -5,6 +5,7 @@ pub mod bg4;
 pub mod xorb;
 pub mod shard;
 pub mod deduper;
+pub mod singleflight;
 pub mod interp_search;
 
 pub fn run(suite: &str, ctx: &mut Ctx) -> bool {
@@ -13,6 +14,7 @@ pub fn run(suite: &str, ctx: &mut Ctx) -> bool {
         "hashes" => hashes::run(ctx),
         "bg4" => bg4::run(ctx),
         "shard" => shard::run(ctx),
+        "singleflight" => singleflight::run(ctx),
         "deduper" => deduper::run_parent(ctx),
         "deduper-child" => deduper::run_child(ctx),
         "interp_search" => interp_search::run(ctx),
